@@ -5,6 +5,7 @@ import itertools
 from ..gen import cells as G
 from ..gen import maps as M
 from ..translate import labelfns as tr
+from ..translate import arith2
 
 SPEC = dict(
     manifest=dict(
@@ -15,7 +16,10 @@ SPEC = dict(
              'serialiser wrote (c09_roundtrip); that the empty map is None / a single 0 bit (c09_empty); that keys <0 or >=2^n are '
              'rejected leaving the map unchanged and accepted keys map injectively to n-bit strings (c09_bad_keys); and an explicit '
              'characterisation of the only failure (a cell over 1023 bits / 4 refs) with a fits-implies-succeeds theorem '
-             '(c09_capacity_explicit). The label-kind function used by the model is regenerated from utils.py on every run.',
+             '(c09_capacity_explicit). The label-kind function used by the model is regenerated from utils.py on every run, and so is the '
+             'key-range test of set_int_key (`int_key < 0 or int_key.bit_length() > self.size`, Generated/DictKey.lean): it is proved, for EVERY '
+             'integer key and width, to reject exactly the keys outside 0 <= k < 2^n (c09_src_key_range) and to be the test the hand model uses '
+             '(c09_src_model_set).',
         level_note='Trusted: Lean kernel (propext, Classical.choice, Quot.sound); Model/Hashmap.lean as a hand transcription of '
                    'hashmap/{hashmap,utils,parse}.py (tied by sampled differential correspondence: exhaustive widths 1-3 incl. all insertion '
                    'orders in the thorough tier, all 65535 width-4 key sets thorough / sampled quick, pattern key sets up to width 1023, all key '
@@ -24,7 +28,8 @@ SPEC = dict(
                    'injection is outside the model); Cell construction limits (depth) are C01.',
         technique='Lean 4 proof (hand model + label functions translated from source) + differential correspondence with the library + round-trip oracle',
     ),
-    translators=[('hashmap/utils.py->Generated/LabelFns.lean', tr.regenerate)],
+    translators=[('hashmap/utils.py->Generated/LabelFns.lean', tr.regenerate),
+                 ('hashmap.py set_int_key range test->Generated/DictKey.lean', arith2.regenerator('DictKey'))],
     design_ref='DESIGN.md §6 C09',
     rule='a case = (key width, value serialiser, insertion sequence of (key form, value)); widths 1-2 all key sets x all orders, width 3 all key '
          'sets x 4 orders (all orders thorough), width 4 sampled key sets (all 65535 thorough), widths 5..1023 prefix-sharing patterns; key forms '
@@ -32,7 +37,8 @@ SPEC = dict(
          'serialize, HashMap.parse, from_cell, store_dict+load_dict/preload_dict/load_hashmap and the Lean model; distinct = distinct case; '
          'non-trivial = at least one accepted key',
     trusted_base=['Model/Hashmap.lean mirrors hashmap.py / utils.py / parse.py by hand; Generated/LabelFns.lean is translated from utils.py each run',
-                  'harness/translate/labelfns.py (Python subset -> Lean)', 'value serialisers modelled as "append these bits/refs"'],
+                  'harness/translate/labelfns.py (Python subset -> Lean)', 'value serialisers modelled as "append these bits/refs"',
+                  'harness/translate/pyarith.py + arith.py/arith2.py and lean/TonVerif/PyInt.lean (int.bit_length) for the c09_src_* theorems'],
     assumptions=['Python dict preserves insertion order', 'sorted() on 0/1 strings is lexicographic', 'correspondence is sampled differential testing'],
 )
 
@@ -346,8 +352,23 @@ def key_forms(rng, n, k):
     return forms
 
 
+def src_search(ctx):
+    """Search mode only: the (key, width) points where the regenerated range test of set_int_key (Generated/DictKey.lean) differs from
+    the model's, replayed as one-key dictionaries (the key must be accepted iff 0 <= key < 2^width; an accepted key must round-trip).
+    True = a concrete failing input was found."""
+    found = arith2.search_points(ctx, ['DictKey'])
+    n0 = len(ctx.failures)
+    for pt in (found.get('keyRejected') or [])[:16]:
+        if 1 <= pt['size'] <= 1023:
+            run_case(ctx, pt['size'], 'u3', [(f'i:{pt["key"]}', '1')], (), 'src-key')
+            run_case(ctx, pt['size'], 'u3', [('i:0', '2'), (f'i:{pt["key"]}', '1')], (), 'src-key2')
+    return len(ctx.failures) > n0
+
+
 def run(ctx):
     rng = ctx.rng
+    if ctx.search and src_search(ctx):
+        return
     odd_key_types(ctx)
     # --- widths 1..3 exhaustive over key sets; insertion orders: all (w<=2, and w=3 in thorough) or 4 per set
     for n in (1, 2, 3):
